@@ -152,7 +152,10 @@ type predGen struct {
 	c    excluder
 }
 
-type excluder interface{ Excluded(string) }
+type excluder interface {
+	Excluded(string)
+	Class(string)
+}
 
 func (g *predGen) key(t *rapid.T) string {
 	if rapid.IntRange(0, 9).Draw(t, "absentkey") < 2 {
@@ -199,11 +202,18 @@ func (g *predGen) leaf(t *rapid.T) *pnode {
 		if _, err := regexp.Compile(pat); err != nil {
 			continue
 		}
-		if cls := knownRegexDefect(pat); cls != "" {
+		if cls := knownRegexDefectFor(pat, g.u.vals[k]); cls != "" {
 			if g.c != nil {
 				g.c.Excluded(cls)
+				if knownRegexDefect(pat) == "" {
+					// ideally never: the pattern-derived probes are meant to suffice
+					g.c.Class("regex_excluded_only_by_values_in_play")
+				}
 			}
 			continue
+		}
+		if g.c != nil && g.rung == rungReFull {
+			g.c.Class("regex_plan_" + optimise(pat).describe())
 		}
 		n.V = bstr(pat)
 		return n
